@@ -20,6 +20,7 @@ handlers and their order, the history — is universally quantified.
 import TraitsVerif.Lemmas.AttrMore
 import TraitsVerif.Lemmas.AttrSourceTrait
 import TraitsVerif.Lemmas.AttrSourceNotify
+import TraitsVerif.Lemmas.WrapSource
 namespace TraitsVerif.Props.C02
 open TraitsVerif TraitsVerif.Model.Attr
 
@@ -158,6 +159,49 @@ example :
     let r := callNotifiers E t none s.on 3 4 s
     r.1 = none ∧ r.2.ctx.log.map (·.h) = [0, 1] ∧ r.2.on = some [⟨.dynamic, 1, 1⟩] := by
   decide
+
+open TraitsVerif.Model.PyW in
+/-- The Python wrapper layer is the model's: `Generated/WrapProg.lean` is the source text of the notifier wrappers
+(traits/trait_notifiers.py, traits/observation), translated on every run by `harness/translate/pywrap.py`; for every
+environment (`==` / `!=` tables that may raise, handler that returns, raises or unregisters the wrapper, both
+re-raise flags), trait, object state and change `(C.old, C.new)`:
+ 1. `_change_accepted` computes `changeAccepted` and creates the instance trait unless old is Uninitialized;
+ 2. `ctrait_prevent_event` computes `preventEvent` and touches nothing;
+ 3. `AbstractStaticChangeNotifyWrapper.__call__` is `callWrapper` for a static notifier — it consults
+    `_change_accepted` afresh on EVERY call and performs no comparison of its own;
+ 4. `TraitChangeNotifyWrapper._notify_function_listener` / `_notify_method_listener` (live owner) /`__call__` are
+    `callWrapper` for an `on_trait_change` notifier; `_dispatch_change_event` and `dispatch` are what 4 uses them as;
+ 5. `TraitEventNotifier.__call__` is `callWrapper` for an `observe` notifier.
+So `callNotifiers` — and with it `C02_exactly_once_*`, `C02_same_sequence*`, `C02_truthful`, `C02_handler_exception` —
+speaks about the interpreted wrapper layer called from the interpreted `call_notifiers`. -/
+theorem C02_wrappers_are_source (C : WC) (s : OSt) :
+    run C Generated.WrapProg.change_accepted [.object, .name, .id C.old, .id C.new] s
+        = (.ok (.bool (changeAccepted C.E.cmp C.t.kind C.t.flags C.old C.new)),
+           if C.old = uninit then s else s.ensureItrait)
+    ∧ run C Generated.WrapProg.ctrait_prevent_event [.event] s
+        = (.ok (.bool (preventEvent C.E.cmp C.t.kind C.t.flags C.old C.new)), s)
+    ∧ (C.n.kind = .static →
+        run C Generated.WrapProg.AbstractStaticChangeNotifyWrapper_call [.self, .object, .name, .id C.old, .id C.new] s
+          = ofWrapper (callWrapper C.E C.t C.n C.loc C.old C.new s))
+    ∧ (C.n.kind = .dynamic →
+        run C Generated.WrapProg.TraitChangeNotifyWrapper_notify_function_listener
+            [.self, .object, .name, .id C.old, .id C.new] s
+          = ofWrapper (callWrapper C.E C.t C.n C.loc C.old C.new s)
+        ∧ run C Generated.WrapProg.TraitChangeNotifyWrapper_notify_method_listener
+            [.self, .object, .name, .id C.old, .id C.new] s
+          = ofWrapper (callWrapper C.E C.t C.n C.loc C.old C.new s))
+    ∧ run C Generated.WrapProg.TraitChangeNotifyWrapper_call [.self, .object, .name, .id C.old, .id C.new] s
+        = ofWrapper (callWrapper C.E C.t C.n C.loc C.old C.new s)
+    ∧ run C Generated.WrapProg.TraitChangeNotifyWrapper_dispatch_change_event
+        [.self, .object, .name, .id C.old, .id C.new, .handler] s = Lemmas.WrapSource.dispatchSem C s
+    ∧ (C.n.kind = .observe →
+        run C Generated.WrapProg.TraitEventNotifier_call [.self, .args, .args] s
+          = ofWrapper (callWrapper C.E C.t C.n C.loc C.old C.new s)) :=
+  ⟨Lemmas.WrapSource.change_accepted_is_source C C.old C.new s, Lemmas.WrapSource.prevent_event_is_source C s,
+   Lemmas.WrapSource.static_call_is_source C s,
+   fun h => ⟨Lemmas.WrapSource.notify_function_is_source C s h, Lemmas.WrapSource.notify_method_is_source C s h⟩,
+   Lemmas.WrapSource.dynamic_call_is_source C s, Lemmas.WrapSource.dispatch_change_event_is_source C s,
+   Lemmas.WrapSource.observe_call_is_source C s⟩
 
 /-! ### Exactly once -/
 
